@@ -66,6 +66,10 @@ type Scenario struct {
 	ShortReqTO bool `json:"short_req_timeout,omitempty"`
 	// ReuseHead: every caller reuses one Request and one Response object for all its calls, and its first call is a HEAD
 	ReuseHead bool `json:"reuse_head,omitempty"`
+	// MaxConnDur: MaxConnDuration is 500 ms and every caller pauses 1 s (virtual) between its calls: a pooled connection is
+	// older than that when it is taken again, the client announces "Connection: close" on it and must retire it
+	// afterwards whatever the peer answers (the peer does not echo the option and keeps the connection open)
+	MaxConnDur bool `json:"max_conn_duration,omitempty"`
 }
 
 func (sc Scenario) reqTO() time.Duration {
@@ -148,6 +152,8 @@ type sconn struct {
 	exch     int
 	slowAt   time.Duration // ASlow: when the held-back response becomes readable
 	slowOut  []byte
+	// the client sent a request carrying "Connection: close" on this connection
+	announcedClose bool
 }
 
 func (c *sconn) Read(p []byte) (int, error) {
@@ -257,6 +263,14 @@ func (c *sconn) request(head, from string) {
 	if id == "" { // requests of the GetURL helper carry their identity in the path only
 		if f := strings.Fields(lines[0]); len(f) > 1 {
 			id = strings.TrimPrefix(f[1], "/")
+		}
+	}
+	if c.announcedClose {
+		w.violate("connection %d: request %s is sent on a connection on which the client had announced Connection: close", c.id, id)
+	}
+	for _, ln := range lines[1:] {
+		if k := strings.IndexByte(ln, ':'); k > 0 && strings.EqualFold(ln[:k], "Connection") && strings.EqualFold(strings.TrimSpace(ln[k+1:]), "close") {
+			c.announcedClose = true
 		}
 	}
 	if method == "POST" {
@@ -383,6 +397,9 @@ func (w *World) Body() func() {
 	return func() {
 		job := w.job
 		o := &http1.ClientOptions{Dialer: dialer{w}, MaxConns: job.Sc.MaxConns, ReadTimeout: readTimeout, WriteTimeout: readTimeout, DialTimeout: time.Second, MaxIdleConnDuration: 10 * time.Second}
+		if job.Sc.MaxConnDur {
+			o.MaxConnDuration = 500 * time.Millisecond
+		}
 		if job.Sc.Wait {
 			o.MaxConnWaitTimeout = waitTimeout
 		}
@@ -397,6 +414,9 @@ func (w *World) Body() func() {
 			t := t
 			verifrt.Go(fmt.Sprintf("caller%d", t), func() {
 				for m := 0; m < job.Sc.M; m++ {
+					if job.Sc.MaxConnDur && m > 0 {
+						verifrt.Sleep(time.Second)
+					}
 					k := t*job.Sc.M + m
 					rec := &w.calls[k]
 					rec.id = fmt.Sprintf("t%dm%d", t, m)
@@ -483,6 +503,8 @@ func (w *World) OnPoint() {
 			w.violate("connection %d was put back for reuse with an unread / pending response", sc.id)
 		case sc.sawErr:
 			w.violate("connection %d was put back for reuse after an error or timeout on it", sc.id)
+		case sc.announcedClose:
+			w.violate("connection %d was put back for reuse although the client had announced Connection: close on it", sc.id)
 		case sc.lastAns == AOkClose && sc.exch > 0:
 			w.violate("connection %d was put back for reuse although the response said Connection: close", sc.id)
 		}
